@@ -1796,11 +1796,18 @@ class Exists(QuantifiedConditional):
         variables = HashedIterable()
         variables.update(self.variable._unique_variables_)
         variables.update(self.condition._unique_variables_)
-        return [
+        ids = [
             v.id_
             for v in variables
             if v.value is not self.variable and not isinstance(v.value, Literal)
         ]
+        # the elements of the flattened collections the quantified expression is taken from are bindings of their own
+        ids.extend(
+            node._id_
+            for node in self.variable._descendants_
+            if isinstance(node, Flatten)
+        )
+        return ids
 
     def _evaluate__(
         self,
